@@ -654,6 +654,8 @@ pub fn items(prop: &str, tier: &str) -> Vec<Item> {
                 if who == 2 && !th && !matches!(o, None | Some("hidepid=2") | Some("subset=pid")) { continue; }
                 cfgs.push((who, o, 0));
                 if who != 1 && matches!(o, Some("subset=pid") | Some("hidepid=2")) { cfgs.push((who, o, 1)); if th { cfgs.push((who, o, 2)); } }
+                // a seccomp profile that allows the new mount API but predates faccessat2 (EPERM)
+                if who == 0 && matches!(o, None | Some("subset=pid")) { cfgs.push((who, o, 3)); }
             } }
             for (who, opts, mapi) in &cfgs {
                 let unpriv = &(*who == 1);
@@ -665,7 +667,7 @@ pub fn items(prop: &str, tier: &str) -> Vec<Item> {
                             if !th && opn == "proc_open_follow" && *class != "missing" && *sub != "mounts" { continue; }
                             let mut op = Op::new(opn).base(base).path(sub).flags(O_RDONLY | O_NONBLOCK);
                             match hk { "new" => op = op.procfs("new"), "capi" => op = op.capi(), _ => op = op.procfs("pj") }
-                            scs.push(Scenario { name: format!("{}{}{}/{}/{}", who_name(*who), opts.map(|o| format!("+{}", o)).unwrap_or_default(), ["", "+nofsopen", "+nomountapi"][*mapi as usize], hk, op.brief()), backend: "K".into(), op, path: class.to_string() });
+                            scs.push(Scenario { name: format!("{}{}{}/{}/{}", who_name(*who), opts.map(|o| format!("+{}", o)).unwrap_or_default(), ["", "+nofsopen", "+nomountapi", "+nofaccessat2"][*mapi as usize], hk, op.brief()), backend: "K".into(), op, path: class.to_string() });
                         }
                     }
                 }
@@ -673,7 +675,7 @@ pub fn items(prop: &str, tier: &str) -> Vec<Item> {
                 v.push(Item { scen: s0, plan: Plan::Trace, warm: true, mount_api: *mapi, max_exec: 1, bundle: scs, others: vec![], proc_opts: opts.map(|s| s.to_string()), unpriv: *unpriv, userns: *who == 2, thread_decoy: None, fd_slack: None, scripted: None, nofile: Some(256), no_stdin: false, root_move: false, prior_root: false });
             }
             // environment answers of the handle-construction protocol: every single (thorough: every pair of) deviating answer(s)
-            let names: Vec<String> = ["fsopen", "fsconfig", "fsmount", "open_tree", "openat", "faccessat2"].iter().map(|s| s.to_string()).collect();
+            let names: Vec<String> = ["fsopen", "fsconfig", "fsmount", "open_tree", "openat", "faccessat2", "newfstatat"].iter().map(|s| s.to_string()).collect();
             for (who, opts) in [(0u8, None), (1, Some("hidepid=2")), (0, Some("subset=pid")), (1, None), (2, Some("subset=pid")), (2, None)] {
                 let unpriv = who == 1;
                 for (base, sub, class) in [("root", "nonexistent", "missing"), ("root", "sys/kernel/ostype", "masked"), ("self", "nonexistent", "missing")] {
@@ -815,8 +817,12 @@ fn spec_for(it: &Item, scen: &Scenario) -> OneShot {
     if let Some(d) = &it.thread_decoy { os.setup.thread_decoy = Some(format!("{}|{}/{}", ROOT_IN, ROOT_IN, d)); }
     if it.unpriv { os.setup.uid = 1000; os.setup.gid = 1000; os.setup.drop_caps = true; os.setup.keep_dumpable = true; }
     os.setup.rlimit_nofile = it.nofile;
-    if it.mount_api >= 1 { os.setup.deny.push("fsopen".to_string()); }
-    if it.mount_api >= 2 { os.setup.deny.push("open_tree".to_string()); }
+    // 3: the new mount API works, but faccessat2 is refused with EPERM (a seccomp profile older than Linux 5.8)
+    if it.mount_api == 3 { os.setup.deny.push("faccessat2=EPERM".to_string()); }
+    else {
+        if it.mount_api >= 1 { os.setup.deny.push("fsopen".to_string()); }
+        if it.mount_api >= 2 { os.setup.deny.push("open_tree".to_string()); }
+    }
     os
 }
 
@@ -1034,7 +1040,7 @@ fn judge(prop: &str, it: &Item, scen: &Scenario, w: &World, eo: &ExecOut, counts
                 }
                 // "true errors": an entry that exists but is hidden by the mount options of the /proc at hand must not be reported
                 // as missing to a caller that is able to get a full private procfs (root with capabilities)
-                if scen.path == "masked" && scen.op.name != "proc_readlink" && !it.unpriv && it.mount_api == 0 && eo.faults.is_empty() && o.panic.is_none() && !o.ok && o.errno == Some(libc::ENOENT) && scen.op.path.as_deref() != Some("1/nonexistent") {
+                if scen.path == "masked" && scen.op.name != "proc_readlink" && !it.unpriv && (it.mount_api == 0 || it.mount_api == 3) && eo.faults.is_empty() && o.panic.is_none() && !o.ok && o.errno == Some(libc::ENOENT) && scen.op.path.as_deref() != Some("1/nonexistent") {
                     v.push(("existing-reported-missing".into(), format!("privileged lookup of an existing but masked entry reported ENOENT ({})", o.msg.clone().unwrap_or_default().chars().take(160).collect::<String>())));
                 }
             }
